@@ -474,6 +474,10 @@ void DocumentBuilder::proc_instance_line() { currentInstanceLine = &currentTempl
  */
 void DocumentBuilder::instance_name(const char* name, bool templ)
 {
+    if (!currentInstanceLine || !currentTemplate) {
+        handle_error(TypeException("Must be declared inside of an instance line"));
+        return;
+    }
     symbol_t uid;
     if (templ) {
         string instName = string(name);
@@ -548,6 +552,10 @@ void DocumentBuilder::instance_name_end(const char* name, size_t arguments)
             instance_name(i_name.c_str());  // std::cout << "instance line name: " << i_name << std::endl;
             /* Create template composition.
              */
+            if (!currentInstanceLine) {  // instance_name() has reported it
+                fragments.pop(arguments);
+                return;
+            }
             currentInstanceLine->add_parameters(*old_instance, params, exprs);
 
             /* Propagate information about restricted variables. The
